@@ -7,7 +7,7 @@ from fractions import Fraction
 
 from .. import bits as B, codec, lengths as LN
 from ..model import AnalysisError, StructVal, dotted, norm_text, unparse, walk_no_nested
-from ..q import NONEXC, Fn, same_relation
+from ..q import NONEXC, Fn, ctor_fields, same_relation
 from . import c05, c13
 from .c04 import layout
 
@@ -682,7 +682,7 @@ def r6(ctx):
         ctx.check(ok, R, f"{gen}:ExtendedMessageDecoder:sub-buffer", m, f.node, "the sub-decoder gets the bytes after the sub-header", norm_text(decs[0][1]) if decs else "")
         e = Fn(ctx.repo, m, "ExtendedMessageEncoder.encode")
         cons = e.calls("ExtendedMessageSubHeader")
-        kw = {k.arg: e.expand_text(k.value, cons[0][0]) for k in cons[0][1].keywords} if cons else {}
+        kw = {k: e.expand_text(v, cons[0][0]) for k, v in ctor_fields(ctx.repo, m, cons[0][1]).items()} if cons else {}
         ok = kw.get("message_length", "").endswith(".size(message.sub_message)") and kw.get("message_id") == "message.sub_message.message_id"
         ctx.check(ok, R, f"{gen}:ExtendedMessageEncoder:sub-header", m, e.node, "the sub-header announces the sub-encoder's size and the sub-message's id", str(kw))
         packs = e.calls("_SUB_HEADER_STRUCT.pack")
@@ -707,18 +707,16 @@ def r6(ctx):
     un = [n for n in dec.cfg.nodes if n.kind == "stmt" and isinstance(n.ast, ast.Assign) and isinstance(n.ast.value, ast.Call) and (dotted(n.ast.value.func) or "").endswith("_SUB_HEADER_STRUCT.unpack_from")]
     names = [e.id for e in un[0].ast.targets[0].elts] if un and isinstance(un[0].ast.targets[0], ast.Tuple) else []
     cons = dec.calls("ControlStatusSubHeader")
-    cargs = [norm_text(a) for a in cons[0][1].args] + [f"{k.arg}={norm_text(k.value)}" for k in cons[0][1].keywords] if cons else []
-    assoc = {}
-    if cons:
-        for i, a in enumerate(cons[0][1].args):
-            assoc[fields[i]] = norm_text(a)
-        for k in cons[0][1].keywords:
-            assoc[k.arg] = norm_text(k.value)
+    assoc = {k: norm_text(v) for k, v in ctor_fields(ctx.repo, m, cons[0][1]).items()} if cons else {}
+    if "*" in assoc and assoc["*"].endswith("_SUB_HEADER_STRUCT.unpack_from(" + dec.params[1] + ")"):
+        # ControlStatusSubHeader(*unpack_from(buffer)): slot i goes to the i-th dataclass field
+        names = [f"#slot{i}" for i in range(len(fields))]
+        assoc = {fld: f"#slot{i}" for i, fld in enumerate(fields)}
     slot_of = {nm: i for i, nm in enumerate(names)}
     ok = len(names) == 4 and [slot_of.get(assoc.get(f)) for f in ("sub_message_id", "non_repeat_length", "repeat_length", "repeat_count")] == [0, 1, 2, 3]
     ctx.check(ok, R, "at5:ControlStatusDecoder:sub-header-slots", m, dec.node, "slot 0 -> sub_message_id, 1 -> non_repeat_length, 2 -> repeat_length, 3 -> repeat_count (as packed)", f"unpacked {names} -> {assoc}")
     e_cons = enc.calls("ControlStatusSubHeader")
-    kw = _canon_enc({k.arg: enc.expand_text(k.value, e_cons[0][0], keep=encvars) for k in e_cons[0][1].keywords}) if e_cons else {}
+    kw = _canon_enc({k: enc.expand_text(v, e_cons[0][0], keep=encvars) for k, v in ctor_fields(ctx.repo, m, e_cons[0][1]).items()}) if e_cons else {}
     ok = kw == {"sub_message_id": want[0], "non_repeat_length": want[1], "repeat_count": want[3], "repeat_length": want[2]}
     ctx.check(ok, R, "at5:ControlStatusEncoder:sub-header-object", m, enc.node, "the sub-header object handed to the sub-encoder carries the same four values", str(kw))
     decs = _local_decode_calls(dec)
